@@ -29,6 +29,9 @@ func init() {
 			"\t\tatomic.AddInt64(&p.pending, 1)\n\t\tif err != nil {\n\t\t\t*events = oldEvents\n\t\t\treturn err\n\t\t}\n", "C03-R1"},
 		mutant{"failed registration keeps the interest bit", "internal/poll_linux.go",
 			"\t\t\t*events = oldEvents\n\t\t\treturn err", "\t\t\treturn err", "C03-R1"},
+		mutant{"registration error returned without rolling back", "internal/poll_linux.go",
+			"\t\tvar err error\n\t\tif oldEvents == 0 {\n\t\t\terr = p.add(fd, createEvent(*events, slot))\n\t\t} else {\n\t\t\terr = p.modify(fd, createEvent(*events, slot))\n\t\t}\n\t\tif err != nil {\n\t\t\t// The kernel did not take the registration: nothing is pending and the slot must not claim the event.\n\t\t\t*events = oldEvents\n\t\t\treturn err\n\t\t}\n\n\t\tatomic.AddInt64(&p.pending, 1)\n",
+			"\t\tatomic.AddInt64(&p.pending, 1)\n\t\tif oldEvents == 0 {\n\t\t\treturn p.add(fd, createEvent(*events, slot))\n\t\t}\n\t\treturn p.modify(fd, createEvent(*events, slot))\n", "C03-R1"},
 		mutant{"DelWrite does not decrement", "internal/poll_linux.go",
 			"\tif *events&PollerWriteEvent == PollerWriteEvent {\n\t\tatomic.AddInt64(&p.pending, -1)", "\tif *events&PollerWriteEvent == PollerWriteEvent {", "C03-R1"},
 		mutant{"Post does not count", "internal/poll_linux.go",
@@ -291,8 +294,9 @@ func runC03(c *Ctx) {
 				switch {
 				case nSet == 1 && nRestore == 0:
 					want = 1
-					if errNil == "nonnil" {
-						problem = "a registration that failed still holds its interest bit and is counted"
+					if errNil != "nil" {
+						// "unknown" is the error of the registration call returned as is: the failing outcome takes this path too
+						problem = "a registration that failed (the kernel's error is returned on this path) still holds its interest bit and is counted"
 					}
 				case nSet == 1 && nRestore >= 1:
 					want = 0
